@@ -263,6 +263,9 @@ func (ig *ingest) ctxProvenance(ev *Eval, rule string, ctx, h, v *Term) bool {
 	if rule == "K6.commit" {
 		pr = props("C15", "C16", "C14") // a commit callback under a context that shutdown does not cancel keeps the worker from ending
 	}
+	if rule == "K6.propose" {
+		pr = props("C15", "C19") // a block request under a context the view's election does not cancel keeps the worker from acting on the trigger
+	}
 	if rule == "K6.committee" {
 		pr = props("C15", "C08", "C18") // ... and the committee (membership, leader order) must be the one of the height the term decides
 	}
